@@ -210,7 +210,7 @@ PROPS['C20'] = {
                 'pw_vs_pw_keyfile_distinct takes SHA-256 injectivity on the two occurring inputs as a hypothesis'],
     'assumptions': ['HMAC-SHA-256 under the reference-derived key authenticating the real header means the real code derived the same composite'],
     'level_text': 'Kernel-checked for every SHA-256/base64/hex function: element order, composite definition, each documented key-file encoding, white-space '
-                  'insensitivity of v2 payloads, password-only vs password+keyfile distinct (under injectivity), KDB lone element; for the executable hex decoder: every byte string written in hex with any mixture of upper and lower case decodes to itself and so every key has version-2 key files that yield exactly it (hexDecode_hexWrite, stripWs_hexWrite, keyfile_v2_every_key), and for the executable base64 decoder every key has version-1 key files that yield exactly it (keyfile_v1_every_key, from b64_roundtrip); UTF-8 is injective on strings of scalar values (utf8_injective, Codec/Utf8Lemmas.lean: the encodings are prefix free and determine the scalar value), so two different passwords give the same composite key only through a SHA-256 collision on the inputs that occur (distinct_passwords_distinct_keys, password_bytes_distinct). The model (with Lean\'s own SHA-256, base64, '
+                  'insensitivity of v2 payloads, password-only vs password+keyfile distinct (under injectivity), KDB lone element; for the executable hex decoder: every byte string written in hex with any mixture of upper and lower case decodes to itself and so every key has version-2 key files that yield exactly it (hexDecode_hexWrite, stripWs_hexWrite, keyfile_v2_every_key), and for the executable base64 decoder every key has version-1 key files that yield exactly it (keyfile_v1_every_key, from b64_roundtrip); UTF-8 is injective on strings of scalar values (utf8_injective, Codec/Utf8Lemmas.lean: the encodings are prefix free and determine the scalar value), so two different passwords give the same composite key only through a SHA-256 collision on the inputs that occur (distinct_passwords_distinct_keys, password_bytes_distinct); the hex decoder accepts only two characters per byte (hexDecode_length), so a version-2 payload with an odd number of non-white-space characters falls back to the UTF-8 bytes of the text (keyfile_v2_odd_falls_back). The model (with Lean\'s own SHA-256, base64, '
                   'hex, UTF-8) is compared with an independent reference derivation and with the real library through save/parse of independently built files.',
 }
 
